@@ -32,7 +32,7 @@ ANCHORS = ['penman.transform:reify_edges', 'penman.transform:dereify_edges',
            'penman.layout:node_contexts']
 PROBES = {'C17': 6}
 MIN_EVAL = {'quick': 2000, 'thorough': 60000}
-REQUIRED_COUNTERS = ['class:hand-built', 'class:decoded', 'class:edited', 'class:shuffled', 'class:reified-text',
+REQUIRED_COUNTERS = ['class:hand-built', 'class:decoded', 'class:edited', 'class:shuffled', 'class:reified-text', 'class:wide',
                      'dereified_something',
                      'op:re', 'op:de', 'op:ra', 'op:ib', 'changed']
 MODELS_R = ['default', 'amr', 'amr', 'mini', 'rand1', 'rand2', 'amr', 'rand5']
@@ -71,7 +71,14 @@ def build(ctx, p):
     mname = MODELS_R[p['i'] % len(MODELS_R)]
     _, model, rm, _ = M.get(mname)
     kind = p['i'] % 6
-    if kind == 5:
+    if p['i'] % 24 == 23:
+        pool = [r for r in R_AMR if rm.reifiable(r)] or R_AMR
+        node = T.wide_tree(rng, rm, pool)
+        ok, g = ctx.call(layout.interpret, Tree(node), model, clause='pre-interpret')
+        if not ok:
+            return None
+        cls = 'wide'
+    elif kind == 5:
         # explicit reified relations in the *text* (so that dereify_edges has work to do),
         # written from any node - also from the reified node itself - and then re-topped
         node = T.rand_tree(rng, rm, roles=R_AMR, concepts=CONCEPTS, p_aln=0.2)
@@ -121,11 +128,17 @@ def build(ctx, p):
                 g.top = rng.choice(sorted(g.variables()))
             cls = 'shuffled'
         if kind == 4:
+            # the graph has been used (queried, encoded) before it is edited in place
+            g.variables()
+            g.edges()
+            ctx.call(penman.encode, g, model=model, clause='pre-encode')
             G.edit(rng, g, rm)
             if rng.random() < .5:
                 g.top = rng.choice(sorted(g.variables()))
             cls = 'edited'
-    if cls == 'reified-text' and rng.random() < 0.6:
+    if cls == 'wide':
+        prog = rng.choice([['re'], ['re', 'de'], ['re', 'ra'], ['ra'], ['re', 'ib']])
+    elif cls == 'reified-text' and rng.random() < 0.6:
         prog = ['de'] + [op for op in ('ib', 'ra', 're') if rng.random() < 0.6]
     elif rng.random() < 0.35:
         prog = [op for op in CLI_ORDER if rng.random() < 0.6] or ['re']
